@@ -197,3 +197,51 @@ Theorem c22_model_agreement_implies_property : forall tb init offers rd pg fin,
   holds_on (KernelCase tb init true offers rd pg fin) = true.
 Proof. exact kernel_agreement_implies_property. Qed.
 Print Assumptions c22_model_agreement_implies_property.
+
+(** Partial liveness of the bank kernel ([Live.v]).  For every geometry, table and tFAW, after
+    ANY history from the built state (any oracle), for every in-range queued column command c:
+    (a) whenever the offered command is ready it is issued in that very tick;
+    (b) if from now on c is the only command offered, it is issued as its own column command
+        after finitely many ticks, preceded by at most one precharge and one activate of its bank.
+    NOT proved (and false without further assumptions): completion of every request of the real
+    controller.  Missing, by name: the FR-FCFS scheduler's choices (commands to other banks raise
+    this bank's counters again; with tRAS < tRCD it precharges a freshly activated row for ever —
+    replayed on the real component), admission into the command queues (fillCommandQueue, read/
+    write watermarks), the refresh stall, the data-return timeline and the respond stage under
+    Top-port back-pressure. *)
+From Akita Require Import C22.Live.
+Theorem c22_completion_partial : forall T tfaw nr nbg nb history c,
+  c_kind c < 4 -> l_rank (c_loc c) < nr -> l_bg (c_loc c) < nbg -> l_bank (c_loc c) < nb ->
+  let s := final T tfaw (init_st nr nbg nb) history in
+  (forall e k, find_entry (tick_banks s) (c_loc c) = Some e ->
+     ready_kind tfaw (tick_banks s) (e_data e) c = Some k ->
+     snd (step T tfaw s (Some c)) = Some (mk_issued (s_tick s + 1) k (c_loc c))) /\
+  exists m pre x, trace T tfaw s (repeat (Some c) m) = pre ++ [x] /\
+    i_kind x = c_kind c /\ i_loc x = c_loc c /\ (length pre <= 2)%nat /\
+    (forall y, In y pre -> i_loc y = c_loc c /\ (i_kind y = kPRE \/ i_kind y = kACT)).
+Proof.
+  intros T tfaw nr nbg nb history c K Hr Hg Hb s.
+  split; [intros e k F R; exact (offered_ready_is_issued T tfaw s c e k F R)|].
+  assert (states_ok (init_st nr nbg nb)) as SO0.
+  { intros e He. right. apply (init_closed nr nbg nb e He). }
+  destruct (reachable_inv T tfaw history _ (nonneg_init nr nbg nb) SO0) as [NN [SO [Len [L1 L2]]]].
+  fold s in NN, SO, Len, L1, L2.
+  destruct (flat_index_bijection nr nbg nb) as [Len0 [Tot _]].
+  destruct (Tot (c_loc c) Hr Hg Hb) as [Lt _].
+  assert (exists e, find_entry s (c_loc c) = Some e) as [e F].
+  { unfold find_entry, flat_index in *. rewrite L1, L2. cbn [init_st s_nbg s_nb] in *.
+    destruct (nth_error (s_entries s) _) as [e|] eqn:E; [eauto|].
+    apply nth_error_None in E. rewrite Len, Len0 in E. lia. }
+  apply (sole_offer_completes T tfaw s c e NN F). split; [exact K|].
+  apply SO. unfold find_entry in F. eapply nth_error_In; eauto.
+Qed.
+Print Assumptions c22_completion_partial.
+
+(** Non-vacuity of the liveness statement: after the history of [c22_nonvacuous] (bank 0/0/0 open
+    on row 9) a sole persistent read of row 5 is served by PRE, ACT, RD. *)
+Example c22_completion_nonvacuous :
+  let s := final ex_T 28 (init_st 1 2 2) ex_offers in
+  firstn 3 (map (fun i => (i_kind i, l_row (i_loc i)))
+              (trace ex_T 28 s (repeat (Some (mk_cmd kRD (mk_loc 0 0 0 5))) 120)))
+  = [(kPRE, 5); (kACT, 5); (kRD, 5)].
+Proof. vm_compute. reflexivity. Qed.
